@@ -486,6 +486,14 @@ func (c *Cursor) Filter(ctx context.Context, idxStr string, val []interface{}) e
 		}
 	}
 	var err error
+	if c.t.Tree.Root.Size() == 0 {
+		// An empty tree (e.g. every row deleted and vacuumed) has no root
+		// node, and the tree cursor cannot seek in it.
+		c.currentKey = nil
+		c.currentRow = nil
+		c.eof = true
+		return nil
+	}
 	c.cursor, err = c.t.Tree.Root.Cursor(ctx)
 	if err != nil {
 		return fmt.Errorf("cursor: %w", err)
